@@ -37,4 +37,40 @@ TEXT = {
                 note=_PARSER_NOTE),
 }
 
+def _p(cid, technique, level, design):
+    TEXT[cid] = dict(engine="enum", design_ref=design, technique=technique, level=level, note=_PARSER_NOTE)
+
+
+_p("C02", "bounded exhaustive enumeration of assignments x renderings (generator with inverse) on the real parser",
+   "model checking of the implementation: every assignment of <= k items over a byte-level value alphabet and every rendering of it "
+   "(4 option forms, long/short/bundled toggles, all item orders, every `--` placement, with and without short names) is parsed by the "
+   "real parser and must give back exactly the assignment, byte for byte and in order, plus typed access for decimal texts",
+   "DESIGN.md 6 C02")
+_p("C03", "bounded exhaustive enumeration of source configurations (command line x environment x default x optional) vs reference",
+   "model checking of the implementation: all combinations of {given in each spelling, not given} x environment {unbound, unset, empty, "
+   "17 byte-level values} x default x optional/required for the three kinds, singly and as ordered pairs in one parser, against the "
+   "reference ranking command line > environment > default including the provided flag and verbatim delivery",
+   "DESIGN.md 6 C03")
+_p("C04", "bounded exhaustive enumeration of byte-level argument vectors with fork-isolated totality oracle + reference accept/reject boundary",
+   "model checking of the implementation: 12 declarations x every argument vector up to the bound over a 48-token byte-level alphabet "
+   "(whole malformed family) x environments + long-token stress cases; every execution must return or throw exactly parsing_error "
+   "(crash, terminate, other exception, sanitizer report, hang are attributed to the case) and accept exactly when the reference accepts",
+   "DESIGN.md 6 C04")
+_p("C11", "bounded exhaustive enumeration of toggle declarations x occurrence patterns x environment words; closed-world word enumeration",
+   "model checking of the implementation: 48 toggle declarations x every vector up to the bound over the occurrence alphabet (counts, "
+   "bundles, --no- in all orders) against the reference; the environment vocabulary is decided as a closed world over every string up "
+   "to the length bound over the vocabulary's characters, all case variants and all single edits of the 30 documented words",
+   "DESIGN.md 6 C11")
+_p("C12", "bounded exhaustive enumeration of positional configurations x argument vectors x indices vs reference",
+   "model checking of the implementation: accepted count {0,1,2,3,unlimited} x greedy x every vector up to the bound over a 14-token "
+   "alphabet mixing values, `--`, malformed dash tokens and option spellings; positional list, accept/reject and every index in "
+   "[-m,m-1] (and memory safety for the two indices outside) against the reference",
+   "DESIGN.md 6 C12")
+_p("C14", "explicit-state search over parse histories on one parser object, differential oracle against a fresh parser",
+   "model checking of the implementation: every sequence of <= h (argument vector, environment) events (succeeding and failing) on one "
+   "parser object for 3 declarations, each outcome compared with a freshly built identical parser; plus BFS de-duplicated on the "
+   "option objects' public state to a fixpoint, which extends the statement to all finite sequences over the event alphabet",
+   "DESIGN.md 6 C14")
+TEXT["C14"]["engine"] = "seqmc"
+
 NA = {}
